@@ -4,7 +4,17 @@ import logging
 import time
 import traceback
 import types
-from asyncio import CancelledError, Future, Task, ensure_future, gather, get_running_loop, iscoroutinefunction, sleep
+from asyncio import (
+    CancelledError,
+    Future,
+    Task,
+    current_task,
+    ensure_future,
+    gather,
+    get_running_loop,
+    iscoroutinefunction,
+    sleep,
+)
 from contextlib import suppress
 from functools import wraps
 from threading import RLock
@@ -290,6 +300,9 @@ class TaskManager:
         with self._task_lock:
             self._shutdown = True
             tasks = self.cancel_all_pending_tasks()
+
+        # We may be running inside one of our own tasks: don't wait for ourselves.
+        tasks = [t for t in tasks if t is not current_task()]
 
         if tasks:
             with suppress(CancelledError):
